@@ -102,7 +102,7 @@ m("C15", "C15-upper-via-strings", "R15-bytes:strUpper", ("stringlib.go", "\tbts 
 m("C15", "C15-sinh-is-cosh", "R15-mathmap:entry:sinh", ("mathlib.go", "L.Push(LNumber(math.Sinh(float64(L.CheckNumber(1)))))", "L.Push(LNumber(math.Cosh(float64(L.CheckNumber(1)))))"))
 m("C15", "C15-atan2-args-swapped", "R15-mathmap:entry:atan2", ("mathlib.go", "math.Atan2(float64(L.CheckNumber(1)), float64(L.CheckNumber(2)))", "math.Atan2(float64(L.CheckNumber(2)), float64(L.CheckNumber(1)))"))
 m("C15", "C15-modf-results-swapped", "R15-mathmap:entry:modf", ("mathlib.go", "\t\tv2 = math.Copysign(0, x)\n\t}\n\tL.Push(LNumber(v1))\n\tL.Push(LNumber(v2))\n\treturn 2", "\t\tv2 = math.Copysign(0, x)\n\t}\n\tL.Push(LNumber(v2))\n\tL.Push(LNumber(v1))\n\treturn 2"))
-m("C15", "C15-format-c-via-fmt", "R15-bytes:(LNumber).Format:c-not-via-fmt", ("value.go", "\tcase 'c':\n\t\t// C's %c writes one byte; Go's writes the UTF-8 encoding of the code point\n\t\tdefaultFormat(string([]byte{byte(int64(nm))}), f, 's')\n", ""), ("value.go", "\tcase 'b', 'd', 'U':", "\tcase 'b', 'c', 'd', 'U':"))
+m("C15", "C15-format-c-via-fmt", "R15-bytes:(LNumber).Format:c-not-via-fmt", ("value.go", "\tcase 'c':\n\t\t// C's %c writes one byte (Go's writes the UTF-8 encoding of the code point) and ignores a precision\n\t\twritePadded(f, string([]byte{byte(int64(nm))}))\n", ""), ("value.go", "\tcase 'b', 'd', 'U':", "\tcase 'b', 'c', 'd', 'U':"))
 # ---- C16
 m("C16", "C16-lvasnumber-own-reader", "R16-onereader:LVAsNumber", ("value.go", "\tcase LString:\n\t\tif num, err := parseNumber(string(lv)); err == nil {\n\t\t\treturn num\n\t\t}\n\t}\n\treturn LNumber(0)", "\tcase LString:\n\t\tif num, err := strconv.ParseFloat(string(lv), 64); err == nil {\n\t\t\treturn LNumber(num)\n\t\t}\n\t}\n\treturn LNumber(0)"), ("value.go", "\t\"os\"\n)", "\t\"os\"\n\t\"strconv\"\n)"))
 m("C16", "C16-q-falls-through", "R16-q:LString.Format", ("value.go", "\tcase 'q':\n\t\tf.Write(quoteLuaString(string(st)))\n\tdefault:", "\tdefault:"))
@@ -278,7 +278,7 @@ m("C16", "C16-tonumber-base10-by-absence", "R16-onereader:baseToNumber:base-10-i
 m("C16", "C16-tonumber-base-unchecked", "R16-onereader:baseToNumber:base-in-2..36-or-argument-error", ("baselib.go", "\tif base < 2 || base > 36 {\n\t\tL.ArgError(2, \"base out of range\")\n\t}\n", "\tif base < 2 {\n\t\tL.ArgError(2, \"base out of range\")\n\t}\n"))
 m("C16", "C16-hex-through-parseuint", "R16-onereader:parseNumber:numerals-not-cut-at-64-bits", ("utils.go", "\t\tv, ok := parseDigits(digits[2:], 16)\n\t\tif !ok {", "\t\tu, uerr := strconv.ParseUint(digits[2:], 16, 64)\n\t\tv, ok := LNumber(u), uerr == nil\n\t\tif !ok {"))
 
-m("C15", "C15-hex-of-negative-signed", "R15-flags:LNumber.Format:%x:unsigned-conversion", ("value.go", "\t\tdefaultFormat(uint64(int64(nm)), f, c)\n", "\t\tdefaultFormat(int64(nm), f, c)\n"))
+m("C15", "C15-hex-of-negative-signed", "R15-flags:LNumber.Format:%x:unsigned-conversion", ("value.go", "\t\tdefaultFormat(uint64(int64(nm)), unsignedState{f, int64(nm) == 0}, c)\n", "\t\tdefaultFormat(int64(nm), unsignedState{f, int64(nm) == 0}, c)\n"))
 m("C15", "C15-inf-through-fmt", "R15-flags:LNumber.Format:%f:non-finite-not-through-fmt", ("value.go", "\t\tif v := float64(nm); math.IsInf(v, 0) || math.IsNaN(v) {", "\t\tif v := float64(nm); math.IsNaN(v) {"))
 m("C15", "C15-percent-s-through-fmt", "R15-flags:defaultFormat:%s-of-a-string-pads-by-bytes", ("utils.go", "\tif s, ok := v.(string); ok && c == 's' {", "\tif s, ok := v.(string); ok && c == 's' && len(s) == 0 {"))
 m("C15", "C15-format-missing-argument", "R15-flags:strFormat:directive-without-argument-raises", ("stringlib.go", "\tif npat > len(args) {\n\t\tL.ArgError(top+1, \"no value\")\n\t}\n", ""))
